@@ -148,6 +148,17 @@ pub fn plan(tier: &str) -> Plan {
         let bound = if thorough { 4 } else { 3 };
         units.push(Unit::explore_split(Job::new(format!("c03/{}", sc.name()), cfg.clone(), Some(bound), body(sc, oracle)), if thorough { 8 } else { 4 }));
     }
+    // the same racing closers at the granularity of the runtime's own steps: a decision point before every
+    // atomic, lock, map and channel operation of the actor's task and of the closers (the windows inside
+    // set_status' clean-up, between two port polls, ... only exist at this granularity)
+    let s_kinds: &'static [vsched::PointKind] = &[vsched::PointKind::Atomic, vsched::PointKind::Lock, vsched::PointKind::Map, vsched::PointKind::Channel];
+    let fine = ExecCfg {
+        filter: Some(std::sync::Arc::new(move |k, _l, t: &vsched::TaskInfo| s_kinds.contains(&k) && (t.role == "closer" || (t.role == "lib" && t.name.as_deref() == Some("A"))))),
+        ..Default::default()
+    };
+    for sc in scenarios(false).into_iter().filter(|s| s.closer == Closer::StopDrainKill) {
+        units.push(Unit::explore_split(Job::new(format!("fine/c03/{}", sc.name()), fine.clone(), Some(if thorough { 3 } else { 2 }), body(sc, oracle)), 8));
+    }
     Plan {
         property: "C03",
         units,
